@@ -37,9 +37,9 @@ PROPS = {
     ),
     "C04": _p(
         "Pattern search finds the same first / last occurrence as std",
-        kani=["c04"], verus=["c04"], level="proof",
+        kani=["c04"], verus=["c04s"], level="proof",
         level_text="Verus: __bytes_find/__bytes_rfind/__bytes_contain/__bytes_find_skip/_keep/__bytes_rfind_skip/_keep proved to return the first/last occurrence (or absence) "
-                   "for every haystack and needle, with termination; string-level wrappers and split_once are glue checked by Kani (bounded). Kani: forward/reverse search, contains, skip/keep, split_once against a first/last-occurrence reference, all byte values, hay <= 5, needle <= 3; "
+                   "for every haystack and needle, with termination; the string-level wrappers (find, rfind, contains, rcontains, find_skip/keep, rfind_skip/keep, split_once, rsplit_once) proved over an abstract pattern (L5), including the from_utf8_unchecked precondition via the proved match-cut lemma. Kani (bounded) supplies counterexamples and covers the four concrete pattern kinds: forward/reverse search, contains, skip/keep, split_once against a first/last-occurrence reference, all byte values, hay <= 5, needle <= 3; "
                    "four pattern kinds",
         technique="Kani bounded harnesses against first/last-occurrence reference (tied to str::find/rfind); Verus loop invariants when present",
         assumptions=["naive first/last-occurrence reference is str::find/rfind (SPEC harness c04_spec_vs_std, thorough tier)",
@@ -47,9 +47,9 @@ PROPS = {
     ),
     "C05": _p(
         "Prefix/suffix tests, stripping and trimming agree with std",
-        kani=["c05"], verus=["c05"], level="proof",
+        kani=["c05"], verus=["c05s"], level="proof",
         level_text="Verus: __bytes_strip_prefix/suffix, start_with/end_with, bytes_trim/_start/_end (== maximal ASCII-whitespace runs, lemma-characterised), "
-                   "__bytes_trim_start_matches/_end_matches/_matches (== maximal whole repetitions) proved for every input; string-level wrappers are glue checked by Kani (bounded). Kani: starts/ends/strip vs prefix reference, whitespace trims vs <[u8]>::trim_ascii*, trim_*_matches vs maximal-whole-repetitions reference; all byte values, input <= 6-7 bytes",
+                   "__bytes_trim_start_matches/_end_matches/_matches (== maximal whole repetitions) proved for every input; the string-level wrappers (starts_with, ends_with, strip_prefix/suffix, trim*, trim_*matches) proved over an abstract pattern (L5) including from_utf8_unchecked preconditions. Kani (bounded) supplies counterexamples, compares with the real trim_ascii*, and covers the four concrete pattern kinds: starts/ends/strip vs prefix reference, whitespace trims vs <[u8]>::trim_ascii*, trim_*_matches vs maximal-whole-repetitions reference; all byte values, input <= 6-7 bytes",
         technique="Kani bounded harnesses vs real std trim_ascii* and reference; Verus loop invariants when present",
         assumptions=["two-sided trim_matches with an overlapping needle may remove the run from either end first; both orders are accepted"],
     ),
